@@ -58,14 +58,14 @@ class Sys:
         if w.created < self.spec["maxnew"]:
             for n in range(self.spec["seqlen"] + 1):
                 for S in itertools.product(range(len(w.u)), repeat=n):
-                    out.append(("newv", list(S), "list"))
+                    out.append(("newv", tuple(S), "list"))
                 for S in itertools.product(range(nm), repeat=n):
-                    out.append(("newu", list(S), "list"))
+                    out.append(("newu", tuple(S), "list"))
             # other iterable kinds for the constructor argument
-            out.append(("newv", [0, 0], "tuple"))
-            out.append(("newv", [1, 0], "gen"))
-            out.append(("newu", [0, 0], "tuple"))
-            out.append(("newu", [nm - 1, 0], "gen"))
+            out.append(("newv", (0, 0), "tuple"))
+            out.append(("newv", (1, 0), "gen"))
+            out.append(("newu", (0, 0), "tuple"))
+            out.append(("newu", (nm - 1, 0), "gen"))
             out.append(("newv", None, "none"))
             out.append(("newu", None, "none"))
         return out
@@ -188,7 +188,7 @@ def judge(pre_o, op, post_o, obs, nv):
 def replay(rec, verbose=False):
     s = Sys(rec["pool"])
     w = s.initial()
-    hist = [tuple(op) for op in rec["history"]]
+    hist = [tuple(tuple(a) if isinstance(a, list) else a for a in op) for op in rec["history"]]
     for op in hist[:-1]:
         s.apply(w, op)
     pre_o, nv = observe(w), len(w.v)
